@@ -380,6 +380,35 @@ def run_record_cases(rng, res, n, base=None):
 # ------------------------------------------------------------------ sign / match-products
 
 
+def verify_many_grid(res):
+    """in-toto-sign --verify with several keys, every small pattern of "signed / did not sign" among the keys asked for,
+    both formats, every run: status 0 exactly when every key asked for verifies."""
+    from in_toto.models.layout import Layout
+    from in_toto.models.metadata import Metablock, Envelope
+    pool = W.pool()
+    S1, S2, N1 = pool[0], pool[1], pool[2]
+    grid = [([S1], [S1, N1]), ([S1], [N1, S1]), ([S1, S2], [S1, S2, N1]), ([S1, S2], [N1, S1]), ([S1], [S1]), ([S1, S2], [S2, S1]), ([S1], [N1])]
+    for dsse in (False, True):
+        for signers, ask in grid:
+            d = tempfile.mkdtemp(prefix="verif-c18g-")
+            cwd = os.getcwd()
+            try:
+                os.chdir(d)
+                lay = Layout(expires="2031-01-01T00:00:00Z")
+                (Envelope.from_signable(lay) if dsse else Metablock(signed=lay)).dump("l.layout")
+                _av = ["-f", "l.layout", "-k"] + [priv_path(x) for x in signers]
+                st, _o, _e = cli.run_main("in_toto_sign", _av)
+                record(res, "sign", {"variant": "verify_many_grid", "dsse": dsse, "n_keys": len(signers)}, st, "success", argv=_av, file_kind="layout")
+                _av = ["-f", "l.layout", "--verify", "-k"] + [write_pub_pem(x, d) for x in ask]
+                st, _o, _e = cli.run_main("in_toto_sign", _av)
+                all_ok = all(x in signers for x in ask)
+                record(res, "sign_verify", {"variant": "verify_many_grid", "dsse": dsse, "asked_signed": [x in signers for x in ask]}, st,
+                       "success" if all_ok else "sig", argv=_av, file_kind="layout")
+            finally:
+                os.chdir(cwd)
+                shutil.rmtree(d, ignore_errors=True)
+
+
 def sign_match_cases(rng, res, n, base=None):
     from in_toto.models.layout import Layout
     from in_toto.models.link import Link
@@ -701,6 +730,8 @@ def shard(seed, idx, n, tier):
         interrupt_case(rng, res)
     if idx == 0:
         incomplete_cases(res)
+    if idx == 7:
+        verify_many_grid(res)
     if idx in (1, 2):
         # --layout-keys with fewer --key-types, the surplus key one that did not sign (shared with C01): not a success
         from harness.props import c01
